@@ -131,7 +131,8 @@ impl<'a> Ctx<'a> {
             // the parts of a doc comment each lie within THEIR lines: the overview within the lines before the first
             // tag line, a tag within its head line and the continuation lines up to the next tag line
             let mut block_of_child: Vec<Option<(Loc, Loc)>> = vec![None; e.children.len()];
-            if let (true, Some(raw), Some(p)) = (e.kind == "doc", &e.raw_doc, &e.pos) {
+            // (a comment whose lines are interleaved with attributes has other tokens between its lines: skipped here)
+            if let (true, Some(raw), Some(p)) = (e.kind == "doc" && e.pos.as_ref().map_or(false, |p| e.raw_doc.as_ref().map_or(false, |r| p.last + 1 - p.first == r.len())), &e.raw_doc, &e.pos) {
                 let slack = if self.r.text.contains("\r\n") { 1 } else { 0 };
                 let is_tag = |l: &String| l.trim_start().starts_with('@');
                 let first_tag = raw.iter().position(is_tag).unwrap_or(raw.len());
